@@ -19,7 +19,7 @@ BUILTINS = {"len", "int", "float", "abs", "min", "max", "range", "sorted", "all"
             "print", "bool", "zip", "enumerate", "round"}
 SPEC_BUILTINS = {"forall", "forall2", "exists", "implies", "iff", "ite", "old", "seq_eq", "is_none", "opt_val",
                  "sqrt", "Sum", "row", "real", "floor", "is_perm_rows", "count_true", "uf", "ufa", "min2", "max2",
-                 "absr", "lo_of", "sq", "trunc", "SumRange", "store", "log"}
+                 "absr", "lo_of", "sq", "trunc", "SumRange", "store", "log", "pigeonhole"}
 
 _ufs = {}
 
@@ -1098,6 +1098,22 @@ def sp_store(ev, node, st):
     seq = ev.ev(node.args[0], st)
     i = as_num(ev.ev(node.args[1], st)).t
     return seq.store(i, ev.ev(node.args[2], st))
+
+
+@spec("pigeonhole")
+def sp_pigeonhole(ev, node, st):
+    """pigeonhole(seq, m): assumed lemma [A] - a duplicate-free integer sequence with all entries in [0, m) has at most m
+    entries (Mathlib: Fintype.card_le_of_injective).  Evaluates to that implication, which is *assumed* to be valid: the
+    obligation 'pigeonhole(...)' is discharged by construction and the formula is added to the hypotheses."""
+    seq = ev.ev(node.args[0], st)
+    m = as_num(ev.ev(node.args[1], st)).t
+    a, b, k = z3.Int(fresh_name("a")), z3.Int(fresh_name("b")), z3.Int(fresh_name("k"))
+    distinct = z3.ForAll([a, b], z3.Implies(z3.And(0 <= a, a < b, b < seq.n), as_num(seq.at(a)).t != as_num(seq.at(b)).t))
+    inrange = z3.ForAll([k], z3.Implies(z3.And(0 <= k, k < seq.n), z3.And(as_num(seq.at(k)).t >= 0, as_num(seq.at(k)).t < m)))
+    ev.ctx.trusted.add("lemma (assumed): pigeonhole - duplicate-free entries in [0,m) => length <= m (Mathlib Fintype.card_le_of_injective)")
+    fact = z3.Implies(z3.And(distinct, inrange), seq.n <= m)
+    st.pc.append(fact)
+    return BoolV(fact)
 
 
 @spec("uf")
